@@ -17,7 +17,9 @@ import (
 	"strings"
 	"time"
 
+	jsoniter "github.com/json-iterator/go"
 	"github.com/spf13/afero"
+	grpcammo "github.com/yandex/pandora/components/providers/grpc"
 	phttp "github.com/yandex/pandora/components/providers/http"
 	"github.com/yandex/pandora/components/providers/http/config"
 	"github.com/yandex/pandora/components/providers/http/decoders"
@@ -199,6 +201,8 @@ func Oracle(queries []string) []string {
 			out[i] = oracleReq(b)
 		case "json":
 			out[i] = oracleJSON(b)
+		case "gj":
+			out[i] = oracleGrpcJSON(b)
 		default:
 			out[i] = "bad-query"
 		}
@@ -240,4 +244,18 @@ func summarize(a core.Ammo) string {
 	}
 	req, sample := ga.Request()
 	return ReqSummary(req, sample.Tags())
+}
+
+// oracleGrpcJSON: jsoniter.Unmarshal of one line into the grpc ammo (grpcjson.decodeAmmo)
+func oracleGrpcJSON(b []byte) (res string) {
+	defer func() {
+		if r := recover(); r != nil {
+			res = "P"
+		}
+	}()
+	var a grpcammo.Ammo
+	if err := jsoniter.Unmarshal(b, &a); err != nil {
+		return "0"
+	}
+	return fmt.Sprintf("1 %s %s", vh.HexS(a.Tag), vh.HexS(a.Call))
 }
